@@ -208,7 +208,7 @@ func Check[C any](t *testing.T, p Prop[C]) {
 		for _, l := range out.Labels {
 			st.Labels[l]++
 		}
-		if out.Harness != "" && len(st.Harness) < 20 {
+		if out.Harness != "" && len(st.Harness) < 2000 {
 			st.Harness = append(st.Harness, out.Harness)
 		}
 		if out.NonTrivial {
